@@ -718,6 +718,20 @@ class Interp:
                         st.cons.add_le(xu, q * (k + 1) + k)
                         st.conv[mk] = q
                     return IntVal(w, xu - q * (k + 1), None)
+            if k is not None and k > 0:
+                m = (~k) & ((1 << w) - 1)
+                if m > 0 and (m & (m + 1)) == 0:
+                    # x & ~(2^j - 1) == x - (x mod 2^j) == q * 2^j : the same Euclidean relation, rounded-down form
+                    xu = st.as_u(x)
+                    if xu is not None:
+                        mk = ('udivrem', w, xu.key(), m + 1)
+                        q = st.conv.get(mk)
+                        if q is None:
+                            q = st.fresh_int(w, False, 'quot').u
+                            st.cons.add_le(q * (m + 1), xu)
+                            st.cons.add_le(xu, q * (m + 1) + m)
+                            st.conv[mk] = q
+                        return IntVal(w, q * (m + 1), None)
             r = st.fresh_int(w, False, 'and')
             if k is not None:
                 st.cons.add_le(r.u, k)
